@@ -113,14 +113,14 @@ def types : List TypeD := [
   ⟨"authorizer", "deny", "denyAuthorizer", .fixed, [idSlot]⟩,
   ⟨"authorizer", "remote", "remoteAuthorizer", .overlay,
     [idSlot] ++ endpointSlots (k "endpoint") ++
-    [r "payload" [k "payload"] (.over (k "payload") true),
+    [r "payload" [k "payload"] (.over (k "payload") false),
      r "expressions" [k "expressions"] (.over (k "expressions") false),
      r "headersForUpstream" [k "forward_response_headers_to_upstream"]
        (.over (k "forward_response_headers_to_upstream") false),
      v "ttl" [k "cache_ttl"] (.over (k "cache_ttl") true), r "celEnv" [], r "v" [k "values"] (.merge (k "values"))]⟩,
   ⟨"contextualizer", "generic", "genericContextualizer", .overlay,
     [idSlot] ++ endpointSlots (k "endpoint") ++
-    [v "ttl" [k "cache_ttl"] (.over (k "cache_ttl") true), r "payload" [k "payload"] (.over (k "payload") true),
+    [v "ttl" [k "cache_ttl"] (.over (k "cache_ttl") true), r "payload" [k "payload"] (.over (k "payload") false),
      r "fwdHeaders" [k "forward_headers"] (.over (k "forward_headers") false),
      r "fwdCookies" [k "forward_cookies"] (.over (k "forward_cookies") false),
      v "continueOnError" [k "continue_pipeline_on_error"] (.over (k "continue_pipeline_on_error") true),
@@ -132,7 +132,7 @@ def types : List TypeD := [
   ⟨"finalizer", "cookie", "cookieFinalizer", .overlay, [idSlot, r "cookies" [k "cookies"] (.fromOv (k "cookies"))]⟩,
   ⟨"finalizer", "header", "headerFinalizer", .overlay, [idSlot, r "headers" [k "headers"] (.fromOv (k "headers"))]⟩,
   ⟨"finalizer", "jwt", "jwtFinalizer", .overlay,
-    [idSlot, r "claims" [k "claims"] (.over (k "claims") true), v "ttl" [k "ttl"] (.over (k "ttl") true),
+    [idSlot, r "claims" [k "claims"] (.over (k "claims") false), v "ttl" [k "ttl"] (.over (k "ttl") true),
      v "headerName" [("header", "name")], v "headerScheme" [("header", "scheme")], r "signer" [k "signer"]]⟩,
   ⟨"finalizer", "noop", "noopFinalizer", .fixed, [idSlot]⟩,
   ⟨"finalizer", "oauth2_client_credentials", "oauth2ClientCredentialsFinalizer", .overlayAlways,
@@ -174,9 +174,13 @@ def mergeEntries (old new : Entries) : Entries :=
   new.foldl (fun acc e => if acc.any (fun x => x.1 == e.1) then acc.map (fun x => if x.1 == e.1 then e else x)
                           else acc ++ [e]) old
 
+/-- `valuesOk`: the decoder and the validator of the mechanism type accept the *values* of the rule's `config`
+(a template parses, a duration is a duration, `ttl` of the jwt finalizer is more than a second, …).  Value-level
+validation is not modelled; it enters as this flag. -/
 structure Override where
-  topKeys : List String   -- keys of the rule's `config` object
-  entries : Entries
+  topKeys  : List String   -- keys of the rule's `config` object
+  entries  : Entries
+  valuesOk : Bool := true
 deriving Repr, DecidableEq
 
 def applyRule (rule : Rule) (old : Entries) (ov : Override) : Option Entries :=
@@ -210,7 +214,7 @@ def TypeD.overridable (t : TypeD) : List Key :=
     | .fromOv k => some k
 
 def Override.valid (t : TypeD) (ov : Override) : Bool :=
-  ov.topKeys.all (fun k => t.overridable.any fun o => o.1 == k) &&
+  ov.valuesOk && ov.topKeys.all (fun k => t.overridable.any fun o => o.1 == k) &&
   ov.entries.all (fun e => t.overridable.any fun o => belongs e.1 o)
 
 /-- load one prototype: a cell per leaf field holding the entries it is configured by -/
@@ -219,14 +223,17 @@ def load (σ : Store Entries Override) (t : TypeD) (id : String) (cfg : Entries)
   let slots := (t.slots.map (·.name)).zip ((List.range t.slots.length).map (· + σ.cells.length))
   { cells := σ.cells ++ vals, insts := σ.insts ++ [⟨t.go, slots⟩], origin := σ.origin ++ [none] }
 
-inductive Created where
+/-- what `mechanismsFactory.Create…` decides before anything is copied -/
+inductive Decision where
   | notFound
   | configError
-  | proto (h : Nat)                                   -- the prototype itself
-  | variant (σ : Store Entries Override) (h : Nat)    -- a new instance
+  | proto (h : Nat)                     -- the prototype itself
+  | build (p : Nat) (ov : Override)     -- `WithConfig` copies prototype `p`
+deriving Repr, DecidableEq
 
-/-- `mechanismsFactory.Create…(id, config)` : `p` is the handle the catalogue has for `id` -/
-def create (σ : Store Entries Override) (p : Option Nat) (ov : Option Override) : Created :=
+/-- `mechanismsFactory.Create…(id, config)` up to the point where `WithConfig` starts copying: `p` is the handle the
+catalogue has for `id` -/
+def decision (σ : Store Entries Override) (p : Option Nat) (ov : Option Override) : Decision :=
   match p with
   | none => .notFound
   | some p =>
@@ -242,20 +249,63 @@ def create (σ : Store Entries Override) (p : Option Nat) (ov : Option Override)
         | .overlay =>
           if ov.topKeys.isEmpty then .proto p
           else if !ov.valid t then .configError
-          else match withConfig heimdall σ p ov with
-            | some (σ', h) => .variant σ' h
-            | none => .notFound
-        | .overlayAlways =>
-          if !ov.valid t then .configError
-          else match withConfig heimdall σ p ov with
-            | some (σ', h) => .variant σ' h
-            | none => .notFound
+          else .build p ov
+        | .overlayAlways => if !ov.valid t then .configError else .build p ov
 
-/-- the configuration an instance stands for: all entries of all its fields (what the rule "observes") -/
+inductive Created where
+  | notFound
+  | configError
+  | proto (h : Nat)                                   -- the prototype itself
+  | variant (σ : Store Entries Override) (h : Nat)    -- a new instance
+
+/-- `mechanismsFactory.Create…(id, config)` run without interruption -/
+def create (σ : Store Entries Override) (p : Option Nat) (ov : Option Override) : Created :=
+  match decision σ p ov with
+  | .notFound => .notFound
+  | .configError => .configError
+  | .proto h => .proto h
+  | .build p ov =>
+    match withConfig heimdall σ p ov with
+    | some (σ', h) => .variant σ' h
+    | none => .notFound
+
+/-- the configuration a view stands for: all entries of all its fields -/
+def effOfView (view : List (String × Option Entries)) : Entries :=
+  view.foldl (fun acc sv => if sv.1 == "id" then acc else
+    (sv.2.getD []).foldl (fun acc e => if acc.contains e then acc else acc ++ [e]) acc) []
+
+/-- the configuration an instance stands for (what the rule "observes") -/
 def effective (σ : Store Entries Override) (h : Nat) : Entries :=
   match σ.view h with
   | none => []
-  | some view => view.foldl (fun acc sv => if sv.1 == "id" then acc else
-      (sv.2.getD []).foldl (fun acc e => if acc.contains e then acc else acc ++ [e]) acc) []
+  | some view => effOfView view
+
+/-! ## What the property demands of the table: the rule's own setting always wins -/
+
+/-- the rule of the specification: whatever the rule sets is observed, also a zero value -/
+def specRule : Rule → Rule
+  | .over key _ => .over key true
+  | r => r
+
+/-- `heimdall` with every field following `specRule` -/
+def heimdallSpec : Desc Entries Override where
+  byValue := heimdall.byValue
+  replace typ s old ov := match (typeByGo typ).bind (·.slot s) with
+    | some d => applyRule (specRule d.rule) old ov
+    | none => none
+
+/-- the configuration a rule has to observe for catalogue entry `p` and its own `config` -/
+def effectiveSpec (σ : Store Entries Override) (p : Nat) (ov : Override) : Entries :=
+  match σ.insts[p]? with
+  | none => []
+  | some i => effOfView (overlayView heimdallSpec i.typ ov (viewOf σ.cells i.slots))
+
+/-- the keys for which the code cannot tell the zero value from "not set" and that `ov` sets to a zero value -/
+def zeroIgnored (t : TypeD) (ov : Override) : List Key :=
+  t.slots.filterMap fun s => match s.rule with
+    | .over key false =>
+      if !(entriesOf ov.entries [key]).isEmpty && (entriesOf ov.entries [key]).all (fun e => isZero e.2) then some key
+      else none
+    | _ => none
 
 end Heimdall.Mech
